@@ -6,6 +6,7 @@ import numpy as np
 import common
 import gen
 import refsym
+import replaylib as rl
 
 IMPORTS = 'From SV Require Import Base.Sym Base.Tensor Model.SymInst Model.Sectors Model.Array.\n'
 SYMS = ['Z2', 'U1', 'Z2Z2', 'U1U1', 'Z4']
@@ -105,7 +106,8 @@ def run(ctx):
                 c = sr.tensordot(a, b, axes=(axa_in, axb_in), mode=mode, preserve_array=True)
             except Exception as e:  # the property admits no exception on contractible pairs
                 found.append({'op': 'tensordot', 'mode': mode, 'a': describe(a), 'b': describe(b), 'axes': [axa_in, axb_in],
-                              'raised': '%s: %s' % (type(e).__name__, e)})
+                              'raised': '%s: %s' % (type(e).__name__, e),
+                              'replay': rl.record('tensordot', {'a': a, 'b': b}, {'symmetry': sym, 'mode': mode, 'axes': [axa_in, axb_in]})})
                 continue
             bad = dense_oracle(a, b, axa, axb, c)
             want_charge = refsym.add(sym, a.charge, b.charge)
@@ -113,7 +115,8 @@ def run(ctx):
                 bad = {'error': 'charge %r, expected %r' % (c.charge, want_charge)}
             if bad is not None:
                 found.append({'op': 'tensordot', 'mode': mode, 'symmetry': sym, 'a': describe(a), 'b': describe(b),
-                              'axes': [axa_in, axb_in], **bad})
+                              'axes': [axa_in, axb_in], **bad,
+                              'replay': rl.record('tensordot', {'a': a, 'b': b}, {'symmetry': sym, 'mode': mode, 'axes': [axa_in, axb_in]})})
             npairs = sum(1 for sa in a.blocks for sb in b.blocks if [sa[i] for i in axa] == [sb[j] for j in axb])
             if npairs > len(c.blocks):
                 stats['aligned_pairs>=2'] += 1
@@ -150,7 +153,10 @@ def run(ctx):
                     bad = {'raised': '%s: %s' % (type(e).__name__, e)}
                 if bad is not None:
                     found.append({'op': 'tensordot (axis pairs relisted, warm cache)', 'mode': mode, 'symmetry': sym, 'a': describe(a),
-                                  'b': describe(b2), 'axes': [axa2, axb], 'earlier_call_axes': [axa_in, axb_in], **bad})
+                                  'b': describe(b2), 'axes': [axa2, axb], 'earlier_call_axes': [axa_in, axb_in], **bad,
+                                  'replay': rl.record('tensordot_relisted', {'a': a, 'b': b}, {
+                                      'symmetry': sym, 'mode': mode, 'earlier_call_axes': [axa_in, axb_in], 'transpose_b': pb,
+                                      'axes': [axa2, axb]})})
         if k < 3:
             ctx.sample({'op': 'tensordot', 'symmetry': sym, 'axes': [axa_in, axb_in], 'a': describe(a), 'b': describe(b)})
         # scalar return path
@@ -160,7 +166,8 @@ def run(ctx):
             want = np.tensordot(gen.densify(a), gen.densify(b), axes=(axa, axb))
             if not np.array_equal(np.asarray(s, dtype='complex128'), want):
                 found.append({'op': 'tensordot->scalar', 'a': describe(a), 'b': describe(b), 'axes': [axa_in, axb_in],
-                              'got': complex(s), 'expected': complex(want)})
+                              'got': complex(s), 'expected': complex(want),
+                              'replay': rl.record('tensordot_scalar', {'a': a, 'b': b}, {'symmetry': sym, 'axes': [axa_in, axb_in]})})
     # ---- matmul / trace / einsum
     for k in range(n_cases // 3):
         sym = SYMS[k % len(SYMS)]
@@ -177,7 +184,8 @@ def run(ctx):
         c = a.__matmul__(b, preserve_array=True)
         bad = dense_oracle(a, b, [nda - 1], [0], c)
         if bad is not None:
-            found.append({'op': 'matmul', 'a': describe(a), 'b': describe(b), **bad})
+            found.append({'op': 'matmul', 'a': describe(a), 'b': describe(b), **bad,
+                          'replay': rl.record('matmul', {'a': a, 'b': b}, {'symmetry': sym})})
         exprs.append('match a_matmul %s %s %s %s with Some c => aarray_eqb %s %s c %s | None => false end' % (
             sym, ring, gen.garray(a, sym, ring), gen.garray(b, sym, ring), sym, ring, gen.garray(c, sym, ring)))
         meta.append(('matmul', '', sym, k))
@@ -203,9 +211,11 @@ def run(ctx):
         try:
             got = gen.densify(y, indices=[x.indices[labels.index(l)] for l in kept])
             if not np.array_equal(got, want):
-                found.append({'op': 'einsum', 'eq': eq, 'x': describe(x), 'got': got.tolist(), 'expected': want.tolist()})
+                found.append({'op': 'einsum', 'eq': eq, 'x': describe(x), 'got': got.tolist(), 'expected': want.tolist(),
+                              'replay': rl.record('einsum', {'x': x}, {'symmetry': sym, 'eq': eq, 'labels': labels, 'kept': kept})})
         except (KeyError, ValueError) as e:
-            found.append({'op': 'einsum', 'eq': eq, 'x': describe(x), 'error': str(e)})
+            found.append({'op': 'einsum', 'eq': eq, 'x': describe(x), 'error': str(e),
+                          'replay': rl.record('einsum', {'x': x}, {'symmetry': sym, 'eq': eq, 'labels': labels, 'kept': kept})})
         ctx.nontrivial(('einsum', sym, eq, str(sorted(x.blocks))))
         exprs.append('match a_einsum %s %s %s %s %s with Some c => aarray_eqb %s %s c %s | None => false end' % (
             sym, ringx, gen.garray(x, sym, ringx), gen.gnatlist(labels), gen.gnatlist(kept), sym, ringx, gen.garray(y, sym, ringx)))
@@ -215,7 +225,8 @@ def run(ctx):
             t = x.trace()
             wt = np.trace(gen.densify(x))
             if complex(t) != complex(wt):
-                found.append({'op': 'trace', 'x': describe(x), 'got': complex(t), 'expected': complex(wt)})
+                found.append({'op': 'trace', 'x': describe(x), 'got': complex(t), 'expected': complex(wt),
+                              'replay': rl.record('trace', {'x': x}, {'symmetry': sym})})
             tv = gen.gtensor(np.asarray(t), ringx)
             exprs.append('match a_trace %s %s %s with Some v => reqb %s v (get %s %s []) | None => false end' % (
                 sym, ringx, gen.garray(x, sym, ringx), ringx, ringx, tv))
@@ -230,10 +241,11 @@ def run(ctx):
         tie_broken += ['Model.%s[%s] disagrees with the implementation (symmetry %s, case %d)' % meta[i] for i in bad_idx[:10]]
         ctx.extra['disagreeing_cases'] = [exprs[i][:3000] for i in bad_idx[:3]]
     for f in found[:5]:
-        ctx.violation('%s differs from the dense contraction' % f['op'], {'oracle': 'numpy on own dense embedding', **f})
+        ctx.violation('%s differs from the dense contraction' % f['op'], {'oracle': 'numpy on own dense embedding', **f, 'run': rl.run_info(ctx)})
     ctx.broken += tie_broken
     if (not ok or tie_broken) and not found:
-        ctx.violation('proof obligation or tie of C02 no longer checks', {'broken': ctx.broken}, found_input=False)
+        ctx.violation('proof obligation or tie of C02 no longer checks',
+                      {'broken': ctx.broken, 'replay': rl.record('proof_phase')}, found_input=False)
     ctx.extra['case_classes'] = stats
     ctx.extra['tie'] = {'model_cases': len(exprs)}
     ctx.coverage['rule'] = ('random contractible pairs (rank 0-4, 1-3 charges/index, sizes 1-3, random dualness/charge/sparsity, '
@@ -242,7 +254,90 @@ def run(ctx):
                             'accumulating block pairs, no aligned blocks, or a scalar result; distinct by (symmetry, mode, sector sets, axes)')
 
 
+# ------------------------------------------------------------------ replay
+def _norm_axes(ax, nd):
+    return [x % nd if nd else x for x in ax]
+
+
+def _rp_tensordot(sr, ins, pr, r):
+    """the recorded contraction again, judged by numpy on the own dense embeddings"""
+    a, b = ins['a'], ins['b']
+    axa_in, axb_in = pr['axes']
+    axa, axb = _norm_axes(axa_in, a.ndim), _norm_axes(axb_in, b.ndim)
+    what = 'tensordot(a, b, axes=%r, mode=%r)' % ((axa_in, axb_in), pr['mode'])
+    try:
+        c = sr.tensordot(a, b, axes=(axa_in, axb_in), mode=pr['mode'], preserve_array=True)
+    except Exception as e:
+        return [{'what': what + ' raises', 'expected': 'the dense contraction', 'got': '%s: %s' % (type(e).__name__, e)}]
+    bad = dense_oracle(a, b, axa, axb, c)
+    want_charge = refsym.add(pr['symmetry'], a.charge, b.charge)
+    if bad is None and c.charge != want_charge:
+        bad = {'error': 'charge %r, expected %r' % (c.charge, want_charge)}
+    return rl.fail_from(bad, what)
+
+
+def _rp_relisted(sr, ins, pr, r):
+    """earlier calls first (they warm the fuse cache), then the contraction with the pairs relisted"""
+    a, b = ins['a'], ins['b']
+    for mode in ('blockwise', 'fused', 'auto'):
+        try:
+            sr.tensordot(a, b, axes=tuple(pr['earlier_call_axes']), mode=mode, preserve_array=True)
+        except Exception:
+            pass
+    axa2, axb = pr['axes']
+    what = 'tensordot(a, b.transpose(%r), axes=%r, mode=%r) after the earlier call' % (tuple(pr['transpose_b']), (axa2, axb), pr['mode'])
+    try:
+        b2 = b.transpose(tuple(pr['transpose_b']))
+        c2 = sr.tensordot(a, b2, axes=(axa2, axb), mode=pr['mode'], preserve_array=True)
+        bad = dense_oracle(a, b2, axa2, axb, c2)
+    except Exception as e:
+        bad = {'raised': '%s: %s' % (type(e).__name__, e)}
+    return rl.fail_from(bad, what)
+
+
+def _rp_scalar(sr, ins, pr, r):
+    a, b = ins['a'], ins['b']
+    axa_in, axb_in = pr['axes']
+    s = sr.tensordot(a, b, axes=(axa_in, axb_in))
+    want = np.tensordot(gen.densify(a), gen.densify(b), axes=(_norm_axes(axa_in, a.ndim), _norm_axes(axb_in, b.ndim)))
+    if not np.array_equal(np.asarray(s, dtype='complex128'), want):
+        return [{'what': 'tensordot(a, b, axes=%r) as a scalar' % ((axa_in, axb_in),), 'expected': complex(want), 'got': complex(s)}]
+    return []
+
+
+def _rp_matmul(sr, ins, pr, r):
+    a, b = ins['a'], ins['b']
+    c = a.__matmul__(b, preserve_array=True)
+    return rl.fail_from(dense_oracle(a, b, [a.ndim - 1], [0], c), 'a @ b')
+
+
+def _rp_einsum(sr, ins, pr, r):
+    x = ins['x']
+    eq, labels, kept = pr['eq'], pr['labels'], pr['kept']
+    y = x.einsum(eq, preserve_array=True)
+    want = np.einsum(eq, gen.densify(x))
+    try:
+        got = gen.densify(y, indices=[x.indices[labels.index(l)] for l in kept])
+    except (KeyError, ValueError) as e:
+        return [{'what': 'x.einsum(%r): result does not embed into the kept legs' % eq, 'got': str(e)}]
+    if not np.array_equal(got, want):
+        return [{'what': 'x.einsum(%r)' % eq, 'expected': want.tolist(), 'got': got.tolist()}]
+    return []
+
+
+def _rp_trace(sr, ins, pr, r):
+    x = ins['x']
+    t, wt = x.trace(), np.trace(gen.densify(x))
+    if complex(t) != complex(wt):
+        return [{'what': 'x.trace()', 'expected': complex(wt), 'got': complex(t)}]
+    return []
+
+
+ORACLES = {'tensordot': _rp_tensordot, 'tensordot_relisted': _rp_relisted, 'tensordot_scalar': _rp_scalar,
+           'matmul': _rp_matmul, 'einsum': _rp_einsum, 'trace': _rp_trace}
+
+
 def replay(path):
-    r = json.load(open(path))
-    print(json.dumps(r, indent=1)[:4000])
-    return 0
+    """re-run the recorded failing case against $SYMMRAY_REPO: 1 = still fails, 0 = passes now"""
+    import sys
+    return rl.dispatch(path, 'C02', ORACLES, sys.modules[__name__])
